@@ -9,7 +9,12 @@
      K <stream> <site class> <store> <hex canonical query> <hex re-spelled query>
    Output:
      K <token kinds of the re-spelling (lex_full)> <dropped regions> <1 if both lex without drops and have the same
-       normal form (WordOps.norm) else 0> <negation flags of the word-operator tokens: canonical> <... re-spelling>  *)
+       normal form (WordOps.norm) else 0> <negation flags of the word-operator tokens: canonical> <... re-spelling>
+   Stream n (harness c12w3.go): a skeleton over atoms whose value on every row of a store is given (one bit string
+   per atom: what the code answers for the atom alone on that row)
+     N <stream> <store> <hex query> <hex skeleton> <expr> <atoms> <hex atom texts> <row bits of atom,..>
+   Output:
+     N <rows selected by the fixed model|E> <rows selected by the surface semantics>  *)
 let str_of_name (s : string) : n list = List.init (String.length s) (fun i -> n_of_int (Char.code s.[i]))
 
 let parse_expr (s : string) : expr =
@@ -74,6 +79,18 @@ let () =
         let same = drops_of sc = [] && drops_of sr = [] && norm sc = norm sr in
         Printf.printf "K %s %d %d %s %s\n" (kinds_str sr) (List.length (drops_of sr)) (if same then 1 else 0)
           (flags_str sc) (flags_str sr)
+    | "N" :: _stream :: _store :: _hq :: hfilter :: pre :: atomstr :: _texts :: bitstr :: _ ->
+        let atoms = List.map str_of_name (String.split_on_char ',' atomstr) in
+        let bits = Array.of_list (String.split_on_char ',' bitstr) in
+        let nrows = String.length bits.(0) in
+        let rows f = String.init nrows (fun r ->
+          let rho name = let i = list_index name atoms 0 in i >= 0 && bits.(i).[r] = '1' in
+          if f rho then '1' else '0') in
+        let toks = toks_of (lex_skeleton (bytes_of_hex hfilter)) in
+        let e = parse_expr pre in
+        Printf.printf "N %s %s\n"
+          (match compile fixed_prec toks with Some b -> rows (fun rho -> eval b rho) | None -> "E")
+          (rows (fun rho -> sem e rho))
     | kind :: _stream :: _mode :: hfilter :: pre :: atomstr :: rest when kind = "S" || kind = "W" ->
         let atoms = List.map str_of_name (String.split_on_char ',' atomstr) in
         let k = List.length atoms in
